@@ -53,6 +53,8 @@ class Ctx:
         if len(self.samples) < 1:
             self.samples.append(obj)
 
-    def violation(self, what, witness=None, mech=None):
+    def violation(self, what, witness=None, mech=None, kind=None):
         """mech: key of the mechanism a classifier *proved* explains this witness (None: unexplained)"""
+        if kind:
+            self.count("violation_kind:" + kind)
         self.violations.append({"what": what, "witness": witness, "mech": mech, "index": self.index})
